@@ -190,6 +190,27 @@ def rule_mixed(ctx):
                 continue
         elif isinstance(st, ast.Assign) and isinstance(st.targets[0], ast.Subscript):
             stores.append(st)
+    sel = calls_in(f.node, "select")
+    if sel and len(sel) == 1 and len(sel[0].args) >= 2 and isinstance(sel[0].args[0], (ast.List, ast.Tuple)):
+        # np.select([conditions], [values][, default]): every temperature must be claimed by a condition (or a default given)
+        from ..flow import Flow as _Flow
+        fl_ = _Flow(f)
+        conds = [fl_.resolve(c_, at=sel[0], depth=2, stop=(Tn,)) for c_ in sel[0].args[0].elts]
+        has_default = len(sel[0].args) > 2 or any(k_.arg == "default" for k_ in sel[0].keywords)
+        Tw_, Ti_ = 100, 77
+        uncovered = []
+        for label, tv in (("below the ice threshold", 50), ("AT the ice threshold", Ti_), ("between the thresholds", 90), ("AT the triple point", Tw_), ("above the triple point", 120)):
+            try:
+                hit = [bool(Interp({Tn: tv, "constants.triple_point_water": Tw_}).ev(c_)) for c_ in conds]
+            except AnalysisError as e_:
+                raise AnalysisError("e_eq_mixed_mk: np.select condition outside the order model: %s" % e_)
+            if not any(hit):
+                uncovered.append(label)
+        ctx.ob("e_eq_mixed_mk.blend", not uncovered or has_default, "np.select over %s; temperatures claimed by no condition: %s" % ([norm(c_)[:50] for c_ in conds], uncovered or "none"),
+               "every temperature - the two branch temperatures included - falls into one branch (np.select returns 0 where no condition holds)", node=sel[0], func=f)
+        if uncovered and not has_default:
+            return
+        raise AnalysisError("e_eq_mixed_mk: np.select form: branch values not modelled")
     if blend is None or len(masks) != 2:
         raise AnalysisError("e_eq_mixed_mk: blend expression / two masks not found")
     W, I = sp.Function("W", positive=True)(T), sp.Function("I", positive=True)(T)
